@@ -12,9 +12,7 @@ EZSP_SCHEMA = extend_vol_schema(
         vol.Optional(
             EzspConfigId.CONFIG_END_DEVICE_POLL_TIMEOUT.name, default=8
         ): cv_optional_int(min=0, max=14),
-        vol.Optional(
-            EzspConfigId.CONFIG_KEY_TABLE_SIZE.name, default=12
-        ): cv_optional_int(min=0),
+        vol.Optional(EzspConfigId.CONFIG_KEY_TABLE_SIZE.name): cv_optional_int(min=0),
     },
 )
 
